@@ -25,7 +25,7 @@ from pathlib import Path
 from typing import Any, Callable, Iterable, Optional, Sequence
 
 VERIF = Path('/verif')
-REPO = Path('/repo')
+REPO = Path(os.environ.get('VERIF_REPO', '/repo'))   # the tree under test (default /repo)
 COQ = VERIF / 'coq'
 THEORIES = COQ / 'theories'
 BUILD = VERIF / 'build'
@@ -305,17 +305,18 @@ def static_audit(files: Iterable[Path]) -> list[tuple[str, int, str]]:
         src = strip_comments(p.read_text())
         # drop string literals
         src = re.sub(r'"[^"\n]*"', '""', src)
-        depth = 0
+        stack: list[str] = []          # enclosing Section / Module kinds
         for n, line in enumerate(src.splitlines(), 1):
-            if re.match(r'\s*(Section|Module Type)\b', line):
-                depth += 1
+            m0 = re.match(r'\s*(Section|Module\s+Type|Module)\s+([A-Za-z_][\w\']*)\s*(\.|:|\(|<)', line)
+            if m0 and not re.search(r':=', line):
+                stack.append('Section' if m0.group(1) == 'Section' else 'Module')
             for m in FORBIDDEN.finditer(line):
                 w = m.group(0)
-                if w in SECTION_ONLY and depth > 0:
+                if w in SECTION_ONLY and 'Section' in stack:
                     continue
                 bad.append((str(p.relative_to(VERIF)), n, w))
-            if re.match(r'\s*End\b', line) and depth:
-                depth -= 1
+            if re.match(r'\s*End\s+[A-Za-z_]', line) and stack:
+                stack.pop()
     return bad
 
 
